@@ -188,6 +188,8 @@ def run(ctx: Ctx):
     model = ctx.model
     from .common_node import names_resolve
     names_resolve(ctx, "C19-GN")
+    from .common_node import taken_socket_is_closed
+    taken_socket_is_closed(ctx, "C19-G11")
     from .common_node import clock_agreement
     clock_agreement(ctx, "C19-G10", {("node.peer", "PeerConnection", "_created"): ["lifetime"]})
     found = discover(model)
